@@ -101,7 +101,12 @@ where
     }
 
     fn open_file(&self, path: &str) -> VfsResult<Box<dyn SeekAndRead + Send>> {
-        match T::get(normalize_path(path)?) {
+        let path = normalize_path(path)?;
+        // only paths of the index are served: rust-embed itself also resolves other spellings (e.g. '\\' as separator)
+        if !self.files.contains_key(path) {
+            return Err(VfsErrorKind::FileNotFound.into());
+        }
+        match T::get(path) {
             None => Err(VfsErrorKind::FileNotFound.into()),
             Some(file) => Ok(Box::new(Cursor::new(file.data))),
         }
